@@ -170,3 +170,9 @@ func zzC18HandlerStopBacklog(kind, k int) {
 
 func ZzC18BtcdStopBacklog()     { zzC18HandlerStopBacklog(0, 3) }
 func ZzC18NeutrinoStopBacklog() { zzC18HandlerStopBacklog(1, 3) }
+
+// a burst far beyond any plausible cap on the backlog (2100 notifications
+// while the consumer reads nothing): the producer is never blocked, and the
+// consumer then receives all of them in order
+func ZzC18BtcdLongBurst()     { zzC18Handler(0, []int{2100}, 0) }
+func ZzC18NeutrinoLongBurst() { zzC18Handler(1, []int{2100}, 0) }
